@@ -13,7 +13,14 @@ from cv import algos, graphs  # noqa: E402
 from cv.core import VERIF, Check  # noqa: E402
 from cayleypy import BfsResult  # noqa: E402
 
-THEOREMS = []
+THEOREMS = [
+    "Cv.edgeGen_spec",
+    "Cv.adjacency_symm_iff",
+    "Cv.storeLimit_none",
+    "Cv.export_complete",
+    "Cv.export_partial",
+    "Cv.export_needs_store",
+]
 
 
 def run_case(ck: Check, case: dict):
